@@ -1290,3 +1290,20 @@ def replay(ctx, case):
         print("NOTE: the case was recorded with an unprivileged runner; this replay runs as root (read-only clauses unobservable)")
     camp.need_fresh([{"lang": s["lang"], "ns": s["ns"], "copy": s["copy"], "via": "inproc", "steps": []}])
     camp.run([s], "replayed")
+
+
+# ---- system-level run spec (specs/NnvgRun*.tla): the recorded runs of the repository's own test suite and of a driver, judged for this property's clauses
+from .. import suite as g1  # noqa: E402
+
+_run_own, _replay_own = run, replay
+
+
+def run(ctx):  # noqa: F811
+    _run_own(ctx)
+    g1.run_suite_traces(ctx, g1.clauses_of("C12"), models=False)
+
+
+def replay(ctx, case):  # noqa: F811
+    if g1.is_case(case):
+        return g1.replay(ctx, case, g1.clauses_of("C12"))
+    return _replay_own(ctx, case)
